@@ -159,8 +159,8 @@ def position_forms(api, g, form):
     return p, lin
 
 
-def accessor_case(sp_form, pos_form):
-    cid = "accessors/grid/%s/%s" % (sp_form, pos_form)
+def accessor_case(sp_form, pos_form, given_state=True):
+    cid = "accessors/grid/%s/%s%s" % (sp_form, pos_form, "" if given_state else "/default-state")
     P = "C13/accessors"
     S_ = 3
 
@@ -170,9 +170,17 @@ def accessor_case(sp_form, pos_form):
         g = M.mk_grid(api, E=1, env_form="scalar")
         sys_us = M.mk_system(api, "sys")
         n = g.n
-        state = api.array("st", S_ * n)
-        chst = api.array("ch", S_ * n, sort="int")
-        system = R.RDSystem(net.obj, g.obj, state=state, chemostats=chst, units_system=sys_us)
+        if given_state:
+            state = api.array("st", S_ * n)
+            chst = api.array("ch", S_ * n, sort="int")
+            system = R.RDSystem(net.obj, g.obj, state=state, chemostats=chst, units_system=sys_us)
+            st_us = sys_us
+        else:
+            # default state: stored in the network's units, which differ from the system's
+            system = R.RDSystem(net.obj, g.obj, units_system=sys_us)
+            state = system.state.value.copy()
+            chst = system.chemostats.copy() if api.mode == "conc" else system.chemostats.copy()
+            st_us = net.us
         s = api.choice("s", S_)
         sp = {"index": s, "label": M.SPECIES[s], "object": net.obj.species[s]}[sp_form]
         pos, lin = position_forms(api, g, pos_form)
@@ -185,7 +193,7 @@ def accessor_case(sp_form, pos_form):
         api.check(P + "/get_state_ok", gs.ok, "raised %r" % (gs.exc,))
         if gs.ok:
             api.check(P + "/get_state", api.eq(Q.si(api, gs.value),
-                                               api.num(api.arr_get(state, idx)) * Q.scale(api, sys_us, M.QTY)))
+                                               api.num(api.arr_get(state, idx)) * Q.scale(api, st_us, M.QTY)))
         gc = api.call(lambda: system.get_chemostat(sp, pos))
         api.check(P + "/get_chemostat_ok", gc.ok)
         if gc.ok:
@@ -271,4 +279,6 @@ CASES.append(system_default_case(2, 2, "graph", ["dict:e1,default", "scalar"]))
 for _sf in ("index", "label", "object"):
     for _pf in ("index", "tuple", "object"):
         CASES.append(accessor_case(_sf, _pf))
+CASES.append(accessor_case("label", "tuple", given_state=False))
+CASES.append(accessor_case("index", "index", given_state=False))
 CASES.append(regenerate_case())
